@@ -1748,15 +1748,16 @@ OptResult NifFile::OptimizeFor(OptOptions& options) {
 										}
 
 										if (part.hasBoneIndices) {
+											// Partitions can have no (or fewer) bones than their bone indices refer to
+											auto partBone = [&part](const uint8_t boneIndex) {
+												return boneIndex < part.bones.size() ? static_cast<uint8_t>(part.bones[boneIndex]) : uint8_t(0);
+											};
+
 											auto& boneIndices = part.boneIndices[i];
-											vertex.weightBones[0] = static_cast<uint8_t>(
-												part.bones[boneIndices.i1]);
-											vertex.weightBones[1] = static_cast<uint8_t>(
-												part.bones[boneIndices.i2]);
-											vertex.weightBones[2] = static_cast<uint8_t>(
-												part.bones[boneIndices.i3]);
-											vertex.weightBones[3] = static_cast<uint8_t>(
-												part.bones[boneIndices.i4]);
+											vertex.weightBones[0] = partBone(boneIndices.i1);
+											vertex.weightBones[1] = partBone(boneIndices.i2);
+											vertex.weightBones[2] = partBone(boneIndices.i3);
+											vertex.weightBones[3] = partBone(boneIndices.i4);
 										}
 									}
 								}
